@@ -187,6 +187,8 @@ type Interp struct {
 	varNames  map[string]int   // occurrence counters
 	varKinds  map[string]string
 	reached   map[string]bool
+	pathAsserts map[string]int
+	freeChoices int // schedule / map-order / sort-permutation choices on this path (not reproducible natively)
 	notes     []string
 	blockCtr  int
 	preempts  int
@@ -255,6 +257,8 @@ func (in *Interp) resetRun(prefix []int) {
 	in.varNames = map[string]int{}
 	in.varKinds = map[string]string{}
 	in.reached = map[string]bool{}
+	in.pathAsserts = map[string]int{}
+	in.freeChoices = 0
 	in.notes = nil
 	in.blockCtr = 0
 	in.preempts = 0
@@ -1825,6 +1829,7 @@ func (in *Interp) execNext(g *Goroutine, fr *Frame, x *ssa.Next) {
 			if n > 5 {
 				panic(pathEnd{kind: "unwind", msg: "map with more than 5 entries ranged in any-order mode"})
 			}
+			in.freeChoices++
 			k := in.decideFree(n)
 			j := it.pos + k
 			it.keys[it.pos], it.keys[j] = it.keys[j], it.keys[it.pos]
